@@ -17,6 +17,7 @@ EXPLANATION = (
     "arbitrary expression such as a lambda-bound parameter; (COPY-STRUCTURE) instantiation rebuilds every constraint and "
     "type constructor unchanged and remaps every type-graph edge into the copy."
     ' (OPERAND-PAIR) a binary-operator constraint is stored on both operand nodes, so refining either one re-checks it; (FIELD-SETS) unifying two blob types compares their field sets in both directions.'
+    ' (DEFER-RECORDED, RET-FOLD, RET-ORIGIN, BINDER-TYPED, TYPE-NAME) as in C03; (VALUE-PATH) a missing branch value / a body that falls off its end / a quotient whose dividend is refined later are not silently compatible with everything (four known findings).'
 )
 UNDECIDED = ("soundness of unification with deferred constraints as a theorem; run-time behaviour of `external` code; "
              "assignment through a tuple index is accepted by can_assign but rejected by the runtime (reported as information).")
@@ -42,6 +43,7 @@ def run(F, rep, tier):
     c03.defer_recorded(F, rep)
     c03.binder_typed(F, rep)
     c03.type_names_are_not_values(F, rep)
+    value_paths(F, rep)
     contradiction_info(F, rep)
 
 
@@ -107,3 +109,54 @@ def contradiction_info(F, rep):
     if '"tuple"' in seg and "Cannot assign to tuple" in seg:
         rep.info("contradiction: TypeChecker::can_assign accepts Expression::Index targets, constant_index types only tuples, "
                  "and preamble.lua's __ASSIGN_INDEX asserts on tuples: `t[0] = 5` is accepted and fails at run time")
+
+
+def value_paths(F, rep):
+    """three places where an accepted program computes with nil because a *missing* value or return is treated as
+    `compatible with anything` (Option<TyID> = None meets Some(t) in unify_option):"""
+    fexpr = F.fn(TC + "expression")
+    rep.analysed(fexpr)
+    # (1) if / case used as a value: a branch that yields no value must make the whole expression valueless
+    for v in ("If", "Case"):
+        for arm, alt in tc.arm_of(F, fexpr, E, v):
+            distinguishes = False
+            for c in nodes(arm["body"], "MethodCall"):
+                if c["m"] in ("is_none", "is_some", "all", "any") and any("value" in (x.get("name") or "") for x in nodes(c, "Path")):
+                    distinguishes = True
+            for m in nodes(arm["body"], "Match"):
+                if "Option<sylt_common::TyID>" in (m.get("scrut_ty") or "") and any("value" in (x.get("name") or "") for x in nodes(m["scrut"], "Path")):
+                    distinguishes = True
+            rep.ob("VALUE-PATH", "expression|%s|branch-without-value" % v, distinguishes,
+                   "a branch that yields no value makes the whole %s valueless" % v.lower() if distinguishes else
+                   "the %s arm folds the branch values with unify_option, for which a branch *without* a value (None) matches "
+                   "anything: `x := if c do 1 else do y := 2 end` gives x the type int although the else branch leaves nil" % v.lower(),
+                   line_of(arm))
+    # (2) a function with a declared return type must not fall off its end
+    for arm, alt in tc.arm_of(F, fexpr, E, "Function"):
+        guards_fall_off = False
+        for i in nodes(arm["body"], "If"):
+            t = pp(i["c"])
+            if "implicit_ret" in t and ("is_none" in t or "None" in t) and tc.is_err_value(i["t"]):
+                guards_fall_off = True
+        rep.ob("VALUE-PATH", "expression|Function|fall-off-the-end", guards_fall_off,
+               "a body that can end without a value is rejected when a return type is declared" if guards_fall_off else
+               "the Function arm unifies the explicit returns with the body's trailing value when there is one and accepts a body "
+               "that has `ret`s somewhere but can also run off its end: `f :: fn c: bool -> int do loop c do ret 1 end end` "
+               "returns nil for f(false)", line_of(arm))
+    # (3) the quotient of a division is only tied to the dividend by a constraint stored on the quotient
+    back = False
+    for c in nodes(fn_body(fexpr), "MethodCall"):
+        if callee(c) == TC + "add_constraint" and tc.constraint_name(c["args"][2]) == "DivRes":
+            node = tc.local_hid(c["args"][0])
+            con = peel(c["args"][2])
+            payload = tc.local_hid(con["args"][0]) if con.get("args") else None
+            for c2 in nodes(fn_body(fexpr), "MethodCall"):
+                if callee(c2) == TC + "add_constraint" and tc.local_hid(c2["args"][0]) == payload and payload is not None:
+                    con2 = peel(c2["args"][2])
+                    if con2.get("args") and any(tc.local_hid(a) == node for a in con2["args"]):
+                        back = True
+    rep.ob("VALUE-PATH", "expression|Div|quotient-follows-dividend", back,
+           "the dividend carries a constraint naming the quotient, so refining the dividend re-derives the quotient's type" if back else
+           "`c := a / 2` records DivRes(a) on the quotient only; when `a` becomes known later (a parameter at a call) nothing "
+           "revisits the quotient, which stays Unknown: `g :: fn a do c := a / 2  d := c + \"px\" end` with g(4) is accepted",
+           fexpr["sp"])
